@@ -52,6 +52,10 @@ pub fn build(draws: &[u16], _tier: Tier) -> Case {
             let cond = at > 0 && s.chance(1, 2);
             let v = if cond { s.pick(3) as i8 } else { -1 };
             prog.threads[t].insert(at, Op::PanicIf { v });
+            if s.chance(1, 4) {
+                let g = s.pick(at + 1);
+                prog.threads[t].insert(g, Op::DropGuardStore { a: 2 });
+            }
         }
         4 => {
             let t = s.pick(prog.threads.len());
@@ -62,6 +66,11 @@ pub fn build(draws: &[u16], _tier: Tier) -> Case {
             let t = s.pick(prog.threads.len());
             let at = s.pick(prog.threads[t].len() + 1);
             prog.threads[t].insert(at, Op::PanicInAtomMut { a: 2 });
+            if s.chance(1, 2) {
+                // a guard armed earlier in the same thread touches the same atomic while the panic unwinds
+                let g = s.pick(at + 1);
+                prog.threads[t].insert(g, Op::DropGuardStore { a: 2 });
+            }
         }
         6 => mode = "own_failure_or_none",
         _ => mode = if s.chance(1, 2) { "branch_limit" } else { "thread_limit" },
